@@ -18,6 +18,7 @@ const c12NumMethods = 20
 
 // c12Hammer is set by the optional file opt_c12hammer.go (it names the unexported mutex field).
 var c12Hammer func(m *MapPollard)
+var c12LockLoop func(m *MapPollard, stop func() bool, acquired func())
 
 func c12Name(i int) string {
 	switch i {
